@@ -1,9 +1,12 @@
 package drive
 
 import (
+	"fmt"
 	"math/rand"
+	"strings"
 	"time"
 
+	"github.com/crillab/gophersat/maxsat"
 	"github.com/crillab/gophersat/solver"
 )
 
@@ -44,6 +47,10 @@ func Scan(c Case) (out Case) {
 			sc.hist()
 		case "count":
 			sc.count()
+		case "maxsat":
+			sc.maxsat()
+		case "cpunsat":
+			sc.cpUnsat()
 		default:
 			panic("harness: unknown scan mode " + str(c, "mode"))
 		}
@@ -667,5 +674,160 @@ func (sc *scanner) count() {
 	}
 	for _, v := range vs {
 		sc.found = append(sc.found, M{"n": n, "clauses": v.clauses, "reduceAt": v.reduceAt, "restartEvery": v.rst, "enum": v.enum})
+	}
+}
+
+// ---- weighted partial MaxSAT: the WCNF route in two clause orders and the constraint API ------------
+
+func (sc *scanner) maxsat() {
+	r := sc.r
+	n := 2 + r.Intn(6)
+	type wcl struct {
+		lits   []int
+		weight int // 0 = hard
+	}
+	var cls []wcl
+	for j := r.Intn(4); j > 0; j-- {
+		cls = append(cls, wcl{randClauseN(r, n, 1+r.Intn(3)), 0})
+	}
+	heavy := r.Intn(2) == 0
+	if r.Intn(2) == 0 { // many weighted unit clauses over few variables: soft constraints that contradict each other
+		n = 2 + r.Intn(3)
+		cls = cls[:0]
+		if r.Intn(3) == 0 {
+			cls = append(cls, wcl{randClauseN(r, n, 2), 0})
+		}
+		heavy = true
+	}
+	for j := 2 + r.Intn(8); j > 0; j-- {
+		w := 1 + r.Intn(3)
+		if heavy {
+			w = 1 + r.Intn(12)
+		}
+		k := 1
+		if r.Intn(4) == 0 {
+			k = 2 + r.Intn(2)
+		}
+		cls = append(cls, wcl{randClauseN(r, n, k), w})
+	}
+	top := 1
+	for _, c := range cls {
+		top += c.weight
+	}
+	text := func(order []int) string {
+		var b strings.Builder
+		fmt.Fprintf(&b, "p wcnf %d %d %d\n", n, len(cls), top)
+		for _, i := range order {
+			w := cls[i].weight
+			if w == 0 {
+				w = top
+			}
+			fmt.Fprintf(&b, "%d", w)
+			for _, l := range cls[i].lits {
+				fmt.Fprintf(&b, " %d", l)
+			}
+			b.WriteString(" 0\n")
+		}
+		return b.String()
+	}
+	id := make([]int, len(cls))
+	for i := range id {
+		id[i] = i
+	}
+	costs := []int{}
+	okAll := true
+	for _, order := range [][]int{id, r.Perm(len(cls))} {
+		order := order
+		cost := -2
+		ok := sc.guarded(func() {
+			s, err := maxsat.ParseWCNF(strings.NewReader(text(order)))
+			if err != nil {
+				return
+			}
+			res := s.Optimal(nil, nil)
+			cost = -1
+			if res.Status == solver.Sat {
+				cost = res.Weight
+			}
+		})
+		okAll = okAll && ok
+		costs = append(costs, cost)
+	}
+	for rep := 0; rep < 2; rep++ { // the constraint API orders its cost literals by map iteration: twice
+		cost := -2
+		ok := sc.guarded(func() {
+			var cs []maxsat.Constr
+			for _, c := range cls {
+				lits := make([]maxsat.Lit, len(c.lits))
+				for i, l := range c.lits {
+					if l < 0 {
+						lits[i] = maxsat.Not(fmt.Sprintf("v%d", -l))
+					} else {
+						lits[i] = maxsat.Var(fmt.Sprintf("v%d", l))
+					}
+				}
+				switch {
+				case c.weight == 0:
+					cs = append(cs, maxsat.HardClause(lits...))
+				case c.weight == 1:
+					cs = append(cs, maxsat.SoftClause(lits...))
+				default:
+					cs = append(cs, maxsat.WeightedClause(lits, c.weight))
+				}
+			}
+			model, c := maxsat.New(cs...).Solve()
+			cost = c
+			if model == nil {
+				cost = -1
+			}
+		})
+		okAll = okAll && ok
+		costs = append(costs, cost)
+	}
+	suspicious := !okAll
+	for _, c := range costs {
+		if c != costs[0] {
+			suspicious = true
+		}
+	}
+	if !suspicious {
+		return
+	}
+	cons := make([]M, len(cls))
+	for i, c := range cls {
+		cons[i] = M{"k": "clause", "lits": c.lits, "w": ones(len(c.lits)), "rhs": 1, "weight": c.weight}
+	}
+	sc.found = append(sc.found, M{"n": n, "cons": cons, "top": top})
+}
+
+// ---- PB problems that the cutting-planes strategy refutes by search (members of C16 groups) ---------
+// (a selection by behaviour: such runs end in the rarely taken exits of the analysis)
+
+func (sc *scanner) cpUnsat() {
+	r := sc.r
+	n := 8 + r.Intn(6)
+	var cons []M
+	for j := 2 + r.Intn(3); j > 0; j-- {
+		k := 3 + r.Intn(n-3)
+		lits := randClauseN(r, n, k)
+		ws := make([]int, k)
+		sum := 0
+		for x := range ws {
+			ws[x] = 1 + r.Intn(5)
+			sum += ws[x]
+		}
+		cons = append(cons, M{"k": "gteq", "lits": lits, "w": ws, "rhs": sum/2 + r.Intn(1+sum/2)})
+	}
+	var st solver.Status
+	indet := false
+	ok := sc.guarded(func() {
+		pb := buildPB(cons)
+		indet = pb.Status == solver.Indet
+		s := solver.New(pb)
+		s.CuttingPlanes = true
+		st = s.Solve()
+	})
+	if ok && indet && st == solver.Unsat {
+		sc.found = append(sc.found, M{"n": n, "cons": cons, "cp": true})
 	}
 }
